@@ -529,4 +529,91 @@ func Run(r *ev.Run) {
 		runProgram(r, id, i)
 	}
 	concurrentFirstUse(r)
+	optionOrder(r)
+}
+
+// ---- options given in one call are applied in the order given ------------------------------------
+
+// optionOrder: WithOptions(o1, ..., ok) must behave like WithOptions(o1)...WithOptions(ok). The
+// options are Fields (context), WrapCore joining a further observer core (which must carry only
+// the context added after it joined) and WrapCore replacing the core; both constructions log one
+// entry and every observer must hold the same context in both.
+func optionOrder(r *ev.Run) {
+	n := r.N(1500, 60000)
+	for i := 0; i < n; i++ {
+		id := fmt.Sprintf("c07/option-order/%d", i)
+		if !r.Want(id) {
+			continue
+		}
+		g := rng.For(r.Seed, "c07/optorder", i)
+		k := g.Range(2, 5)
+		type spec struct {
+			kind string
+			fs   []zap.Field
+		}
+		specs := make([]spec, k)
+		for j := range specs {
+			switch g.Intn(5) {
+			case 0:
+				specs[j] = spec{kind: "join"}
+			case 1:
+				specs[j] = spec{kind: "replace"}
+			default:
+				specs[j] = spec{kind: "fields", fs: []zap.Field{zap.Int(fmt.Sprintf("f%d", j), j), zap.String(fmt.Sprintf("s%d", j), "v")}}
+			}
+		}
+		build := func(oneCall bool) (desc []string, ctxs []string) {
+			base, baseLogs := observer.New(zapcore.DebugLevel)
+			obs := []*observer.ObservedLogs{baseLogs}
+			var opts []zap.Option
+			for _, sp := range specs {
+				sp := sp
+				switch sp.kind {
+				case "fields":
+					opts = append(opts, zap.Fields(sp.fs...))
+					desc = append(desc, fmt.Sprintf("Fields(%s)", sp.fs[0].Key))
+				case "join":
+					c, l := observer.New(zapcore.DebugLevel)
+					obs = append(obs, l)
+					opts = append(opts, zap.WrapCore(func(in zapcore.Core) zapcore.Core { return zapcore.NewTee(in, c) }))
+					desc = append(desc, "WrapCore(tee with a further core)")
+				case "replace":
+					c, l := observer.New(zapcore.DebugLevel)
+					obs = append(obs, l)
+					opts = append(opts, zap.WrapCore(func(zapcore.Core) zapcore.Core { return c }))
+					desc = append(desc, "WrapCore(replace the core)")
+				}
+			}
+			l := zap.New(base)
+			if oneCall {
+				l = l.WithOptions(opts...)
+			} else {
+				for _, o := range opts {
+					l = l.WithOptions(o)
+				}
+			}
+			l.Info("option order", zap.Bool("call_site", true))
+			for _, o := range obs {
+				es := o.All()
+				if len(es) == 0 {
+					ctxs = append(ctxs, "(no entry)")
+					continue
+				}
+				var keys []string
+				for _, f := range es[0].Context {
+					keys = append(keys, f.Key)
+				}
+				ctxs = append(ctxs, strings.Join(keys, ","))
+			}
+			return desc, ctxs
+		}
+		desc, one := build(true)
+		_, seq := build(false)
+		r.Eval(1)
+		r.Distinct("optorder|" + strings.Join(desc, ";"))
+		r.Count("option_order_cases", 1)
+		if strings.Join(one, " | ") != strings.Join(seq, " | ") {
+			r.Violate(ev.Violation{Case: id, Class: "option-order", Msg: fmt.Sprintf("WithOptions(%s) in one call gives the cores these contexts: [%s]; the same options applied one call at a time give [%s] (options must be applied in the order given)", strings.Join(desc, ", "), strings.Join(one, " | "), strings.Join(seq, " | ")), Witness: desc})
+		}
+	}
 }
